@@ -192,7 +192,7 @@ class DictArray(StorageBase):
             return
         path = self._path()
         path.parent.mkdir(parents=True, exist_ok=True)
-        dump(self._dict, path)
+        dump(dict(self._dict), path)  # `_dict` might be a manager proxy, which cannot be unpickled later
 
     def load(self) -> None:
         """Load the dict storage from disk."""
